@@ -185,6 +185,9 @@ def _shard(arg):
             for finding in history_clause(cls, seed):
                 stats.finding(finding, {'kind': 'history', 'cls': ref, 'hex': seed.hex()})
             stats.labels['history:case-variant-first'] += 1
+        for seed in base[:16]:
+            for name, data in mutate.utf8_substitutions(seed):
+                inputs.append((data, 'mutant:' + name))
         text = None
         for number in range(per_class):
             seed = base[number % len(base)]
